@@ -81,7 +81,9 @@ class HTTPConnection(Mapping[str, Any], MoreInfoFromHeaderMixin):
         The full URL of this request.
         """
         try:
-            return URL(scope=self._scope)
+            url = URL(scope=self._scope)
+            url.port  # "Host: a:b" has no numeric port
+            return url
         except ValueError:  # e.g. Host: [  -> "Invalid IPv6 URL"
             raise HTTPException(400, content="Malformed request URL") from None
 
